@@ -529,6 +529,46 @@ func init() {
 		}
 		return nil
 	})
+	// sync.Pool: Get may hand back any object that was Put before, or a new one: both are
+	// explored (a pooled object is owned by one caller at a time, so the write-set monitor does
+	// not treat it as shared memory; state it carries from one call into the next is visible)
+	reg("(*sync.Pool).Get", func(ip *Interp, fr *frame, args []Value) Value {
+		p := args[0].(*Value)
+		if items := ip.syncPools[p]; len(items) > 0 {
+			// both outcomes are explored for the first three such calls on a path; later calls
+			// take the pooled object (what the runtime does on one P between collections)
+			take := true
+			ip.poolForks++
+			if ip.poolForks <= 3 {
+				ip.freshN++
+				v := ip.ts.Var(fmt.Sprintf("zz_pool_get%d", ip.freshN), 8)
+				ip.ex.Assume(ip.ts.Cmp(OpUlt, v, Const(8, 2)))
+				take = ip.ex.Concretize(v, "sync.Pool.Get outcome") == 1
+			}
+			if take {
+				it := items[len(items)-1]
+				ip.syncPools[p] = items[:len(items)-1]
+				return it
+			}
+		}
+		st := (*p).(Struct)
+		newFn := st[len(st)-1]
+		if f, ok := newFn.(*ssa.Function); ok && f == nil {
+			return Iface{}
+		}
+		return ip.call(fr, token.NoPos, newFn, nil)
+	})
+	reg("(*sync.Pool).Put", func(ip *Interp, fr *frame, args []Value) Value {
+		p := args[0].(*Value)
+		if it, ok := args[1].(Iface); ok && it.t == nil {
+			return nil
+		}
+		if ip.syncPools == nil {
+			ip.syncPools = map[*Value][]Value{}
+		}
+		ip.syncPools[p] = append(ip.syncPools[p], args[1])
+		return nil
+	})
 	reg("(*sync.Once).Do", func(ip *Interp, fr *frame, args []Value) Value {
 		p := args[0].(*Value)
 		st := (*p).(Struct)
